@@ -22,7 +22,8 @@ def one_case(ctx, g, rng, length):
     contents = bytes(rng.randrange(256) for _ in range(n))
     size = rng.choice([None, None, n, n + 1, n + 7, max(0, n - 1), 0, 2 * n + 3])
     init = rng.choice([None, None, None, 0, n, max(0, n - 2), n + 2, (size if size is not None else n)])
-    addr = rng.choice([None, 0, 16, 4096, (1 << 64) - 64])
+    # (at the top of the address space a block's address = interval address + offset goes beyond 2^64: plain integer arithmetic)
+    addr = rng.choice([None, 0, 16, 4096, (1 << 64) - 64, (1 << 64) - 8, (1 << 64) - 1, (1 << 64) - 1])
     items, impl, problems = [], [], []
     head = [31, opt(size), opt(init), list(contents)]
     ir = g.IR()
